@@ -25,7 +25,7 @@ import gin
 from gin import config as gc
 from gin import selector_map
 
-BOUNDS = ('map mode: 1-3 SelectorMaps, names over labels {a,b,c} with 1-3 components, '
+BOUNDS = ('map mode: 1-3 SelectorMaps, names over labels {a,b,c} with 1-4 components, '
           'histories of <= 7 set/pop/copy/clear/invalid ops audited after every op on '
           'all suffix/prefix/foreign queries; quick additionally enumerates every name set '
           'of size <= 2 over labels {a,b} (insert all, audit, pop each), thorough every '
@@ -83,69 +83,56 @@ def _queries(names):
   return sorted(qs)
 
 
+def _try(fn, *args):
+  try:
+    return fn(*args)
+  except KeyError as e:
+    return 'KeyError %s' % e
+
+
 def _audit(sm, model, queries, fails, sig):
-  """Whole observable view of `sm` against `model`."""
+  """Whole observable view of `sm` against `model`; True if anything deviates."""
   n0 = len(fails)
   if sorted(sm.items()) != sorted(model.items()) or len(sm) != len(model):
     _fail(fails, 'history_view', sorted(model.items()), sorted(sm.items()), sig + ' items')
   for q in queries:
     want = _ref_matches(model, q)
-    if (q in sm) != (q in model) or sm.get(q, _SENT) != model.get(q, _SENT):
-      _fail(fails, 'history_view', q in model, q in sm, sig + ' contains/get')
-    try:
-      got_item = sm[q]
-    except KeyError:
-      got_item = _SENT
-    if got_item != model.get(q, _SENT):
-      _fail(fails, 'history_view', repr(model.get(q)), repr(got_item), sig + ' getitem')
+    vals = sorted(model[s] for s in want)
+    absent = 'KeyError %r' % q
+    reads = [q in sm, sm.get(q, _SENT), _try(sm.__getitem__, q)]
+    if reads != [q in model, model.get(q, _SENT), model.get(q, absent)]:
+      _fail(fails, 'history_view', [q in model, model.get(q)], reads, sig + ' in/get/[]')
+    clause = 'exact_wins' if q in model else 'suffix_match'
     got = sm.matching_selectors(q)
     if sorted(got) != sorted(want) or len(set(got)) != len(got):
-      clause = 'exact_wins' if q in model else 'suffix_match'
       _fail(fails, clause, sorted(want), [q, sorted(got)], sig)
-    try:
-      gm = sm.get_match(q, _SENT)
-    except KeyError:
-      gm = 'AMBIGUOUS'
+    gm = _try(sm.get_match, q, _SENT)
     if len(want) > 1:
-      if gm != 'AMBIGUOUS':
-        _fail(fails, 'ambiguous_rejected', 'KeyError for %r' % q, repr(gm), sig)
+      if not str(gm).startswith('KeyError'):
+        _fail(fails, 'ambiguous_rejected', 'KeyError for %r' % q, gm, sig)
     elif not want:
       if gm is not _SENT:
-        _fail(fails, 'unknown_reported', 'default for %r' % q, repr(gm), sig)
-    elif gm != model[want[0]]:
-      _fail(fails, 'exact_wins' if q in model else 'suffix_match',
-            [q, model[want[0]]], repr(gm), sig + ' get_match')
-    try:
-      gam = sorted(sm.get_all_matches(q))
-    except KeyError as e:   # the property gives get_all_matches no way to fail
-      gam = 'KeyError %s' % e
-    if gam != sorted(model[s] for s in want):
-      _fail(fails, 'suffix_match', sorted(model[s] for s in want), [q, gam],
-            sig + ' get_all_matches')
-    if q not in model:
-      try:
-        r = sm.minimal_selector(q)
-        _fail(fails, 'history_view', 'KeyError', r, sig + ' minimal_selector(absent)')
-      except KeyError:
-        pass
+        _fail(fails, 'unknown_reported', 'default for %r' % q, gm, sig)
+    elif gm != vals[0]:
+      _fail(fails, clause, [q, vals[0]], gm, sig + ' get_match')
+    gam = _try(sm.get_all_matches, q)   # the property gives it no way to fail
+    if (sorted(gam) if isinstance(gam, list) else gam) != vals:
+      _fail(fails, 'suffix_match', vals, [q, gam], sig + ' get_all_matches')
+    if q not in model and not str(_try(sm.minimal_selector, q)).startswith('KeyError'):
+      _fail(fails, 'history_view', 'KeyError', sm.minimal_selector(q),
+            sig + ' minimal_selector(absent)')
   for s in model:
-    try:
-      r = sm.minimal_selector(s)
-    except KeyError as e:
-      r = 'KeyError %s' % e
+    r = _try(sm.minimal_selector, s)
     sufs = _suffixes(s)
     if r not in sufs or _ref_matches(model, r) != [s]:
       _fail(fails, 'minimal_roundtrip', 'a suffix of %r matching only it' % s, r, sig)
-      continue
-    try:
-      back = sm.get_match(r, _SENT)
-    except KeyError as e:
-      back = repr(e)
-    if back != model[s]:
-      _fail(fails, 'minimal_roundtrip', [r, model[s]], repr(back), sig + ' get_match')
-    shorter = [t for t in sufs if len(t) < len(r) and _ref_matches(model, t) == [s]]
-    if shorter:
-      _fail(fails, 'minimal_is_shortest', shorter[-1], r, sig)
+    elif _try(sm.get_match, r, _SENT) != model[s]:
+      _fail(fails, 'minimal_roundtrip', [r, model[s]], _try(sm.get_match, r, _SENT),
+            sig + ' get_match')
+    else:
+      shorter = [t for t in sufs if len(t) < len(r) and _ref_matches(model, t) == [s]]
+      if shorter:
+        _fail(fails, 'minimal_is_shortest', shorter[-1], r, sig)
   return len(fails) > n0
 
 
@@ -293,15 +280,16 @@ def _check_api(case, fails):
     clause = 'ambiguous_rejected' if n > 1 else 'unknown_reported'
     before = _snapshot()
     for w in WRITES:
-      if w == 'hook':
-        continue   # would leave a permanently failing hook behind; done in mode 'hookbad'
       try:
         _write(w, scope, bad, 'x', 5)
         _fail(fails, clause, 'raise', 'accepted %r' % bad, 'write=%s' % w)
       except (ValueError, KeyError):
         pass
-      if _snapshot() != before:
-        _fail(fails, clause, before, _snapshot(), 'write=%s changed config' % w)
+      if w == 'hook':
+        gc._FINALIZE_HOOKS.pop()   # the refused hook must not poison the rest of the case
+      if _snapshot() != before or gin.config_is_locked():
+        _fail(fails, clause, before, [_snapshot(), gin.config_is_locked()],
+              'write=%s changed config' % w)
     for r in ('query', 'get_bindings', 'call'):
       try:
         got = _read(r, scope, bad, wrappers, tfull, consume)
@@ -343,7 +331,10 @@ def _check_api(case, fails):
     for r in READS:
       if r == 'ref' and sp != s2:
         continue
-      got = _read(r, scope, sp, wrappers, tfull, consume)
+      try:
+        got = _read(r, scope, sp, wrappers, tfull, consume)
+      except (ValueError, KeyError) as e:
+        got = '%s: %s' % (type(e).__name__, str(e)[:60])
       if got != want:
         _fail(fails, 'spelling_same_key', want, repr(got),
               'read=%s %s' % (r, tag))
@@ -362,46 +353,17 @@ def _check_api(case, fails):
   if snap != {(scope, tfull): {'x': 22}}:
     _fail(fails, 'spelling_same_key', {(scope, tfull): {'x': 22}},
           snap, sig + ' one key')
-  # the name reported for the entry (config_str section headers) resolves back to it
-  heads = [l[len('# Parameters for '):-1] for l in gin.config_str().splitlines()
-           if l.startswith('# Parameters for ')]
-  reg2 = dict(reg)
-  reg2['user.consume'] = None
-  for h in heads:
-    sel = h.split('/')[-1]
-    if len(_ref_matches(reg2, sel)) != 1:
-      _fail(fails, 'minimal_roundtrip', 'unique', [sel, _ref_matches(reg2, sel)],
-            'config_str header')
-  want_heads = sorted([(scope, tfull), ckey])
-  got_heads = sorted(('/'.join(h.split('/')[:-1]), (_ref_matches(reg2, h.split('/')[-1])
-                                                    or ['?'])[0]) for h in heads)
-  if got_heads != want_heads:
-    _fail(fails, 'minimal_roundtrip', want_heads, got_heads, 'config_str header set')
+  # the names reported for the entries (config_str section headers) are the shortest
+  # unambiguous ones and resolve back to exactly the bound entries
+  heads = sorted(tuple(l[17:-1].rpartition('/')[::2]) for l in gin.config_str().splitlines()
+                 if l.startswith('# Parameters for '))
   short = [t for t in _suffixes(tfull) if _ref_matches(reg, t) == [tfull]][-1]
-  if sorted(h.split('/')[-1] for h in heads) != sorted([short, 'consume']):
-    _fail(fails, 'minimal_is_shortest', sorted([short, 'consume']),
-          sorted(h.split('/')[-1] for h in heads), 'config_str header')
-
-
-def _check_hookbad(case, fails):
-  """A hook returning an ambiguous / unknown spelling: finalize refuses, nothing changes."""
-  for full in case['names']:
-    mod, name = full.rsplit('.', 1)
-    gin.external_configurable(_mk(full), name=name, module=mod)
-  reg = dict.fromkeys(case['names'])
-  gin.bind_parameter(case['names'][0] + '.y', 1)
-  before = _snapshot()
-  gc.register_finalize_hook(_Hook({case['bad'] + '.x': 5}))
-  clause = 'ambiguous_rejected' if len(_ref_matches(reg, case['bad'])) > 1 \
-      else 'unknown_reported'
-  try:
-    gin.finalize()
-    raised = False
-  except (ValueError, KeyError):
-    raised = True
-  if not raised or _snapshot() != before or gin.config_is_locked():
-    _fail(fails, clause, 'raise, config untouched and unlocked',
-          [raised, gin.config_is_locked()], 'write=hook')
+  if heads != sorted([(scope, short), ('', 'consume')]):
+    reg2 = dict(reg, **{'user.consume': None})
+    back = sorted((sc, _ref_matches(reg2, sel)) for sc, sel in heads)
+    ok = back == sorted([(scope, [tfull]), ('', ['user.consume'])])
+    _fail(fails, 'minimal_is_shortest' if ok else 'minimal_roundtrip',
+          [scope, short], heads, 'config_str header')
 
 
 def _check_const(case, fails):
@@ -454,8 +416,7 @@ def _check_const(case, fails):
 
 def check(case):
   fails = []
-  {'map': _check_map, 'api': _check_api, 'hookbad': _check_hookbad,
-   'const': _check_const}[case['mode']](case, fails)
+  {'map': _check_map, 'api': _check_api, 'const': _check_const}[case['mode']](case, fails)
   return fails
 
 
@@ -535,8 +496,6 @@ def cases(tier, rng):
                                (['a.b.f', 'c.g', 'a.c.g'], 'c.g', 'c.g', 'c.g')):
         yield _api_case(rng, names, {'target': t, 's1': s1, 's2': s2, 'w1': w1, 'w2': w2,
                                      'arg2': 'x'})
-  for bad in ('f', 'b.f', 'z.f', 'a.b'):
-    yield {'mode': 'hookbad', 'names': ['a.b.f', 'c.b.f', 'a.g'], 'bad': bad}
   yield {'mode': 'const', 'consts': [['m.K', 1], ['n.m.K', 2], ['L', 3], ['m.L', 4]]}
   yield {'mode': 'const', 'consts': [['a.b.K', 1], ['c.b.K', 2], ['K', 3]]}
 
@@ -553,11 +512,6 @@ def cases(tier, rng):
     yield _api_case(rng, _rand_names(rng, rng.randint(2, 5)))
   for _ in range(60 if tier == 'quick' else 2000):   # two hooks, two spellings
     yield _api_case(rng, _rand_names(rng, rng.randint(2, 4)), {'w1': 'hook', 'w2': 'hook'})
-  for _ in range(40 if tier == 'quick' else 1500):
-    names = _rand_names(rng, rng.randint(2, 4))
-    pool = sorted({s for n in names for s in _suffixes(n)} | {'z.f', 'a.b'})
-    bad = [s for s in pool if len(_ref_matches(dict.fromkeys(names), s)) != 1]
-    yield {'mode': 'hookbad', 'names': names, 'bad': rng.choice(bad)}
   kuni = [m + '.' + k for m in _universe('mn', 2) for k in 'KL'] + ['K', 'L']
   for _ in range(40 if tier == 'quick' else 1500):
     ks = rng.sample(kuni, rng.randint(1, 4))
